@@ -1,5 +1,13 @@
-(* C07/Model.v — part A (core level) uses the shared Raft core model with its crash semantics (ops 9 and 10 of Raft/Wire.v).
-   Part B (file level: raftfs state file and snapshot manager over CrashFS) adds its own ops here. *)
+(* C07/Model.v — part A (core level) uses the shared Raft core model with its crash semantics (ops 9 and 10 of
+   Raft/Wire.v); part B (file level: raftfs state file and snapshot manager over a crash file system) is
+   C07/FileModel.v. One harness case belongs to exactly one part: part-B cases start with op 100 (state file) or
+   200 (snapshot manager), part-A cases start with op 0. *)
 From Coq Require Import List ZArith.
-From BLB Require Import Raft.Core Raft.Wire.
-Definition run_case (ops : list (list Z)) : list (list Z) := Raft.Wire.run_case ops.
+From BLB Require Raft.Core Raft.Wire C07.FileModel.
+Import ListNotations.
+Definition c07_run_case (ops : list (list Z)) : list (list Z) :=
+  match ops with
+  | (100%Z :: _) :: _ => C07.FileModel.run_case ops
+  | (200%Z :: _) :: _ => C07.FileModel.run_case ops
+  | _ => Raft.Wire.run_case ops
+  end.
